@@ -61,6 +61,28 @@ def nlist(b) -> str:
     return "[" + ";".join(str(x) for x in b) + "]" + ("%N" if len(b) else "")
 
 
+# property values a sloppy normaliser would eat: leading/trailing 'Z'/'T'/digits/UTC offsets (timestamp clean-ups),
+# quotes, ampersands/entities, trailing punctuation, inner and surrounding white space, non-BMP, very long
+HOSTILE_VALUES = [
+    "Dragon Ball Z", "JAY-Z", "Z", "ZZ Top", "Zorro Z.", "zZ", "2024-01-01T00:00:00Z", "Report T", "T", "T-Shirt", "TT", "Version 2", "2", "007",
+    "3rd draft 0", "0", "Meeting +00:00", "+00:00", "UTC+02:00", "-05:00 offset", "12:30", "\"quoted\"", "'single'", "it's", "\"", "AT&T", "&amp;",
+    "&lt;tag&gt;", "a &#38; b", "<b>bold</b>", "&", "ends with dot.", "a, b, c,", "k1; k2;", "...", ";", "inner  double   space", "tab\tinside",
+    "line1\nline2", "  padded  ", " Z ", "\U0001f600 emoji \U0001d11e", "\U0001f600", "\U0001d538Z", "x" * 3000 + "Z", "Z" + "y" * 5000, "\u00e9",
+    "\u00c5ngstr\u00f6m Z", "trailing slash/", "[brackets]", "(paren)", "100%", "#hash", "?", "-dash-", "_under_", "None", "null", "true",
+    "UPPER", "lower", "MiXeD cAsE Z", "\u2003em-spaced\u2003", "\ufeffbom", "a\u00a0b", "1e10", "1.0", "0x1F", "=formula()", "\u202eRTL",
+]
+
+
+def hostile_for(k: int, field: int) -> str:
+    """value of field `field` in the k-th generated document: every field walks the whole list, no two fields of a
+    document share a value"""
+    return HOSTILE_VALUES[(k + 13 * field) % len(HOSTILE_VALUES)]
+
+
+def ws_collapse(x: str) -> str:
+    return " ".join(x.split())
+
+
 # ------------------------------------------------------------------------------------------------ G / X
 class GenError(Exception):
     pass
@@ -516,6 +538,9 @@ def run_rtf(ctx, tb):
     # RTF info group: stored title/author/subject/keywords reach RtfMetadata unchanged
     info_vals = [("Plain Title", "Plain Title", "plain"), ("J\\'fcrgen", "J\u00fcrgen", "hex-escape"),
                  ("Pr\\u8364?is", "Pr\u20acis", "unicode-escape"), ("  padded  ", "padded", "padded")]
+    for i_, v in enumerate(HOSTILE_VALUES):
+        if v.isascii() and len(v) < 200 and not any(c in v for c in "{}\\\n\t"):
+            info_vals.append((v, v.strip(), f"hostile-{i_}"))
     for enc, want, tag in info_vals:
         data = ("{\\rtf1\\ansi{\\info{\\title %s}{\\author %s}{\\subject %s}{\\keywords %s}}\\pard x\\par}" % (enc, enc, enc, enc)).encode("ascii")
         try:
@@ -527,7 +552,7 @@ def run_rtf(ctx, tb):
         for fld in ("title", "author", "subject", "keywords"):
             got = getattr(md, fld)
             if got != want:
-                key = "rtf-info-unicode-escape-dropped" if tag == "unicode-escape" else f"props-changed:read_rtf:{tag}"
+                key = "rtf-info-unicode-escape-dropped" if tag == "unicode-escape" else f"props-changed:read_rtf:{fld}"
                 ctx.finding(key, f"read_rtf: info-group {fld} written as {enc!r} (i.e. {want!r}) is reported as {got!r}",
                             {"rtf_bytes": data, "field": fld, "got": got, "want": want})
     for key, data in docs.items():
@@ -852,19 +877,21 @@ def run_hostile_docs(ctx):
                       "call": reader.__name__}, check_size=True)
     # stored document properties reach the metadata object unchanged (end to end through the XML parser)
     from xml.sax.saxutils import escape
-    vocab = [("Quarterly Report", "plain"), ("  padded  ", "padded"), ("\u00dcn\u00efc\u00f8de \u4e2d\u6587 \U0001f600", "unicode"),
-             ("a & b <c> \"q\"", "markup"), ("line1\nline2", "newline"), ("x" * 3000, "long")]
-    for val, tag in vocab:
-        want = dict(title="T:" + val, author="A:" + val, subject="S:" + val, keywords="K:" + val, description="D:" + val)
-        if tag == "padded":
-            want = {k: val for k in want}
+    n_docs = len(HOSTILE_VALUES)
+    for k in range(n_docs):
+        tag = f"hostile-{k}"
+        names5 = ("title", "author", "subject", "keywords", "description")
+        want = {nm: hostile_for(k, i) for i, nm in enumerate(names5)}
+        extra_vals = {"category": hostile_for(k, 5), "last_modified_by": hostile_for(k, 6)}
+        sweep = k < 4
         core = ('<?xml version="1.0" encoding="UTF-8" standalone="yes"?><cp:coreProperties '
                 'xmlns:cp="http://schemas.openxmlformats.org/package/2006/metadata/core-properties" '
                 'xmlns:dc="http://purl.org/dc/elements/1.1/" xmlns:dcterms="http://purl.org/dc/terms/" '
                 'xmlns:xsi="http://www.w3.org/2001/XMLSchema-instance">'
                 f'<dc:title>{escape(want["title"])}</dc:title><dc:creator>{escape(want["author"])}</dc:creator>'
                 f'<dc:subject>{escape(want["subject"])}</dc:subject><cp:keywords>{escape(want["keywords"])}</cp:keywords>'
-                f'<dc:description>{escape(want["description"])}</dc:description></cp:coreProperties>').encode("utf-8")
+                f'<dc:description>{escape(want["description"])}</dc:description><cp:category>{escape(extra_vals["category"])}</cp:category>'
+                f'<cp:lastModifiedBy>{escape(extra_vals["last_modified_by"])}</cp:lastModifiedBy></cp:coreProperties>').encode("utf-8")
         for rel, reader, fields in (("modern_ms/headings.docx", s2t.read_docx, ("title", "author", "subject", "keywords", "comments")),
                                     ("modern_ms/pptx_table.pptx", s2t.read_pptx, ("title", "author", "subject", "keywords", "comments")),
                                     ("modern_ms/mwe.xlsx", s2t.read_xlsx, ("title", "creator", None, "keywords", "description"))):
@@ -872,7 +899,8 @@ def run_hostile_docs(ctx):
             if not src.exists():
                 continue
             data = rewrite_zip(src, {"docProps/core.xml": lambda d: core})
-            check_props(ctx, reader, data, rel, tag, want, fields)
+            check_props(ctx, reader, data, rel, tag, want, fields, sweep=sweep,
+                        extra=extra_vals if reader is not s2t.read_xlsx else {"last_modified_by": extra_vals["last_modified_by"]})
         meta = ('<?xml version="1.0" encoding="UTF-8"?><office:document-meta '
                 'xmlns:office="urn:oasis:names:tc:opendocument:xmlns:office:1.0" xmlns:dc="http://purl.org/dc/elements/1.1/" '
                 'xmlns:meta="urn:oasis:names:tc:opendocument:xmlns:meta:1.0" office:version="1.2"><office:meta>'
@@ -884,13 +912,13 @@ def run_hostile_docs(ctx):
             src = res / rel
             if src.exists():
                 data = rewrite_zip(src, {"meta.xml": lambda d: meta})
-                check_props(ctx, reader, data, rel, tag, want, ("title", "creator", "subject", "keywords", "description"))
+                check_props(ctx, reader, data, rel, tag, want, ("title", "creator", "subject", "keywords", "description"), sweep=sweep)
         html = ("<html><head><title>%s</title><meta name=\"Author\" content=\"%s\"><meta name=\"keywords\" content=\"%s\">"
                 "<meta name=\"DESCRIPTION\" content=\"%s\"></head><body><p>x</p></body></html>"
                 % (escape(want["title"]), escape(want["author"], {'"': "&quot;"}), escape(want["keywords"], {'"': "&quot;"}),
                    escape(want["description"], {'"': "&quot;"}))).encode("utf-8")
         check_props(ctx, s2t.read_html, html, "generated.html", tag, want, ("title", "author", None, "keywords", "description"),
-                    trimmed_ok=("title",))
+                    trimmed_ok=("title",), collapsed_ok=("title",), sweep=sweep)
         # EPUB: rewrite the dc: elements of the OPF of the sample
         src = res / "epub" / "sample.epub"
         if src.exists():
@@ -905,36 +933,43 @@ def run_hostile_docs(ctx):
                     return t.encode("utf-8")
                 data = rewrite_zip(src, {opf: sub})
                 check_props(ctx, s2t.read_epub, data, "epub/sample.epub", tag, want, ("title", "creator", "subject", None, "description"),
-                            trimmed_ok=("title", "author", "subject", "description"))
+                            trimmed_ok=("title", "author", "subject", "description"), sweep=sweep)
 
 
-def check_props(ctx, reader, data, rel, tag, want, fields, trimmed_ok=()):
+def check_props(ctx, reader, data, rel, tag, want, fields, trimmed_ok=(), collapsed_ok=(), extra=None, sweep=True):
+    """Run the real extractor on a generated package and compare every stored textual property with the metadata
+    object.  Findings are keyed by reader and field (one key per defect, whatever the value)."""
     names = ("title", "author", "subject", "keywords", "description")
     try:
         r = next(iter(reader(io.BytesIO(data), path=None)))
         md = r.get_metadata()
     except Exception as e:  # noqa
-        ctx.finding(f"props-document-rejected:{reader.__name__}:{tag}", f"{reader.__name__} fails on {rel} with rewritten properties: {e!r:.200}",
+        ctx.finding(f"props-document-rejected:{reader.__name__}", f"{reader.__name__} fails on {rel} with rewritten properties: {e!r:.200}",
                     {"base_file": rel, "props": want})
         return
-    ctx.case(("props", reader.__name__, tag), True, kind="props:" + reader.__name__)
-    for nm, fld in zip(names, fields):
-        if fld is None:
-            continue
+    ctx.case(("props", reader.__name__, tag, tuple(want.values())), True, kind="props:" + reader.__name__)
+    pairs = [(nm, fld, want[nm]) for nm, fld in zip(names, fields) if fld is not None]
+    pairs += [(fld, fld, v) for fld, v in (extra or {}).items()]
+    for nm, fld, w in pairs:
         got = getattr(md, fld, None)
-        if got != want[nm]:
-            if nm in trimmed_ok and isinstance(got, str) and got == want[nm].strip():
-                # HTML collapses/trims <title> white space and EPUB readers trim dc: values (the models say strip);
-                # counted, not reported
+        if got != w:
+            if nm in trimmed_ok and isinstance(got, str) and got == w.strip():
+                # EPUB readers trim dc: values, HTML trims <title> (the models say strip): counted, not reported
                 ctx.count("props:trimmed-by-format-rule")
                 continue
-            if isinstance(got, str) and got == want[nm].strip():
+            if nm in collapsed_ok and isinstance(got, str) and ws_collapse(got) == ws_collapse(w) and got.strip() == got:
+                ctx.count("props:whitespace-collapsed-by-format-rule")
+                continue
+            if isinstance(got, str) and got == w.strip():
                 key = f"props-stripped:{reader.__name__}:{fld}"
             else:
                 key = f"props-changed:{reader.__name__}:{fld}"
-            ctx.finding(key, f"{reader.__name__}: stored {nm} {want[nm]!r:.60} is reported as {got!r:.60} ({type(md).__name__}.{fld})",
-                        {"base_file": rel, "stored": want, "field": fld, "got": got})
-    exercise(ctx, r, f"props-doc:{reader.__name__}:{tag}", None, {"base_file": rel, "props": want})
+            ctx.finding(key, f"{reader.__name__}: stored {nm} {w!r:.70} is reported as {got!r:.70} ({type(md).__name__}.{fld})",
+                        {"base_file": rel, "stored": want, "stored_extra": extra, "field": fld, "got": got, "want": w,
+                         "how": "the package is base_file with docProps/core.xml | meta.xml | the OPF dc: elements | the HTML head rewritten "
+                                "to hold the stored values; call " + reader.__name__ + "(io.BytesIO(package)).get_metadata()"})
+    if sweep:
+        exercise(ctx, r, f"props-doc:{reader.__name__}", None, {"base_file": rel, "props": want})
 
 
 # ------------------------------------------------------------------------------------------------ metadata readers vs model
@@ -955,7 +990,8 @@ def run_meta(ctx, tb):
     from sharepoint2text.parsing.extractors import epub_extractor as ex
     from sharepoint2text.parsing.extractors.data_types import EpubMetadata
     rng = ctx.rng
-    texts = [None, "", "Title", "  padded\t", "\u00dcml\u00e4ut \u4e2d", "a\nb", " ", "\u2003x\u2003", "x" * 40, "0"]
+    texts = [None, "", "Title", "  padded\t", "\u00dcml\u00e4ut \u4e2d", "a\nb", " ", "\u2003x\u2003", "x" * 40, "0"] + \
+            [v for v in HOSTILE_VALUES if len(v) < 200]
     q = lambda ns, pre, n: "{%s}%s" % (ns[pre], n)
 
     def tree(root_tag, tags, wrap=None, depth=0):
@@ -1002,6 +1038,15 @@ def run_meta(ctx, tb):
         root = None if k == 0 else tree(q(ons, "office", "document-meta"), tags, wrap=q(ons, "office", "meta"))
         md = extract_odf_metadata(root, ons)
         got = (md.title, md.creator, md.subject, md.keywords, md.description)
+        if root is not None:
+            m_ = root.find(".//" + q(ons, "office", "meta"))
+            if m_ is not None:
+                for tg_, g in zip(tags[:5], got):
+                    el = m_.find(tg_)
+                    stored = el.text if el is not None and el.text else ""
+                    if g != stored:
+                        ctx.finding("props-changed:odf-meta", f"meta.xml property {tg_} stored {stored!r:.80} reported {g!r:.80}",
+                                    {"xml": ET.tostring(root, encoding="unicode")})
         ctx.case(("meta", "odf", k, got), root is not None, kind="meta:odf")
         terms.append(pair(xml_term(root), sv(*got)))
         infos.append(ET.tostring(root, encoding="unicode") if root is not None else None)
@@ -1018,6 +1063,17 @@ def run_meta(ctx, tb):
         c._parse_metadata()
         md = c._metadata
         got = (md.title, md.creator, md.subject, "", md.description)
+        if root is not None:
+            m_ = root.find(q(ens, "opf", "metadata"))
+            if m_ is None:
+                m_ = root.find("{*}metadata")
+            if m_ is not None:
+                for tg_, g in zip(tags[:4], (md.title, md.creator, md.subject, md.description)):
+                    el = m_.find(tg_)
+                    stored = (el.text or "") if el is not None else ""
+                    if g != stored.strip():     # EPUB trims dc: values; anything else must arrive unchanged
+                        ctx.finding("props-changed:epub-opf", f"OPF property {tg_} stored {stored!r:.80} reported {g!r:.80}",
+                                    {"xml": ET.tostring(root, encoding="unicode")})
         ctx.case(("meta", "epub", k, got), root is not None, kind="meta:epub")
         terms.append(pair(xml_term(root), sv(*got)))
         infos.append(ET.tostring(root, encoding="unicode") if root is not None else None)
@@ -1025,7 +1081,8 @@ def run_meta(ctx, tb):
     # HTML <meta> loop, through the real parser
     import sharepoint2text as s2t
     names = ["description", "Description", "KEYWORDS", "keywords", "author", "Author", "generator", "viewport", "", "\u0130"]
-    contents = ["", "c1", "second value", "\u00fc\u4e2d", " padded ", "a,b,c"]
+    contents = ["", "c1", "second value", "\u00fc\u4e2d", " padded ", "a,b,c"] + \
+               [v for v in HOSTILE_VALUES if len(v) < 200 and not any(c in v for c in '"&<>\n\t')]
     terms, infos, lows = [], [], {}
     for k in range(n):
         metas = []
